@@ -48,6 +48,27 @@ func (p Pattern) Glob(cb func(PathInfo) bool) bool {
 		}
 	}
 
+	// With more than one **, the same path can be reached with its first
+	// slash attributed to different **'s (in **a**, ab/a is both */**a** and
+	// *a*/**); generate each path only once.
+	nStarStar := 0
+	for _, seg := range segs {
+		if IsWild1(seg, StarStar) {
+			nStarStar++
+		}
+	}
+	if nStarStar > 1 {
+		seen := make(map[string]struct{})
+		origCb := cb
+		cb = func(info PathInfo) bool {
+			if _, ok := seen[info.Path]; ok {
+				return true
+			}
+			seen[info.Path] = struct{}{}
+			return origCb(info)
+		}
+	}
+
 	return glob(segs, dir, cb)
 }
 
